@@ -151,35 +151,35 @@ type StagePlan struct {
 
 // TxRecord is what the scripted target observed for one transaction.
 type TxRecord struct {
-	N        int
-	MsgID    string // as passed (the queue appends -<hex time>)
-	From     string
-	Meta     module.MsgMetadata
-	MetaPtr  *module.MsgMetadata `json:"-"`
-	AuthUser string // Conn.AuthUser at Start
-	Plan     *StagePlan
-	Started  bool
-	StartRes Outcome
-	Rcpts    []string           // every AddRcpt argument, in order
-	RcptRes  map[string]Outcome // result per presented recipient
-	BodyCall bool
-	Partial  bool
-	BodyRes  Outcome
-	Statuses map[string]Outcome // what we reported (partial)
-	Header   []byte
-	Body     []byte
-	BodyErr  string // error reading the body we were handed
+	N          int
+	MsgID      string // as passed (the queue appends -<hex time>)
+	From       string
+	Meta       module.MsgMetadata
+	MetaPtr    *module.MsgMetadata `json:"-"`
+	AuthUser   string              // Conn.AuthUser at Start
+	Plan       *StagePlan
+	Started    bool
+	StartRes   Outcome
+	Rcpts      []string           // every AddRcpt argument, in order
+	RcptRes    map[string]Outcome // result per presented recipient
+	BodyCall   bool
+	Partial    bool
+	BodyRes    Outcome
+	Statuses   map[string]Outcome // what we reported (partial)
+	Header     []byte
+	Body       []byte
+	BodyErr    string // error reading the body we were handed
 	MetaAtBody module.MsgMetadata
-	Commits  int
-	Aborts   int
-	CommitRes Outcome
-	Closed   bool
-	At       string // simulated time of Start
-	AtD      time.Duration
-	EndD     time.Duration
-	EndStep  int
-	Step     int
-	Inc      int
+	Commits    int
+	Aborts     int
+	CommitRes  Outcome
+	Closed     bool
+	At         string // simulated time of Start
+	AtD        time.Duration
+	EndD       time.Duration
+	EndStep    int
+	Step       int
+	Inc        int
 }
 
 // Accepted returns the recipients for which AddRcpt returned nil.
@@ -210,9 +210,9 @@ type ScriptedTarget struct {
 }
 
 func (t *ScriptedTarget) Init(*config.Map) error { return nil }
-func (t *ScriptedTarget) Name() string         { return "scripted" }
-func (t *ScriptedTarget) InstanceName() string { return t.Label }
-func (t *ScriptedTarget) SimLabel() string     { return t.Label }
+func (t *ScriptedTarget) Name() string           { return "scripted" }
+func (t *ScriptedTarget) InstanceName() string   { return t.Label }
+func (t *ScriptedTarget) SimLabel() string       { return t.Label }
 
 func (t *ScriptedTarget) point(stage string) *simrt.Sim {
 	simrt.Point("tgt:"+t.Label, stage)
